@@ -3,6 +3,7 @@ package checks
 import (
 	"encoding/json"
 	"fmt"
+	"os"
 	"time"
 
 	"github.com/magisterquis/curlrevshell/verifx/bworld"
@@ -94,6 +95,12 @@ func c06(r *ev.Result, tier string) {
 	exploreProfiles(r, budget, c06Profiles(isQuick(tier))...)
 	/* The same question through the real /io handler over TLS, gated. */
 	c06HTTP(r, isQuick(tier))
+	/* And with the real binary, however it was told where to listen. */
+	{
+		base := ev.Scratch("c06-")
+		c06RealBinary(r, base)
+		os.RemoveAll(base)
+	}
 	r.Rule += "; plus the HTTP seam: real full-duplex /io (and /i, /o) requests over TLS against the in-process server with the broker's gates, every admission order of the halves of {io,io}, {io,i}, {o,io}, {io,io,i} (thorough also {io,io,io}, {io,o,i,io})"
 	if !isQuick(tier) {
 		brokerRacePass(r)
